@@ -682,7 +682,7 @@ def _mm_inputs(d):
 
     def rec(name, ex, flag):
         a = pysam.AlignedSegment(inp.header)
-        a.query_name, a.flag, a.reference_id, a.reference_start, a.mapping_quality = name, flag, tid, ex[0][0] - 1, 60 if not flag else 0
+        a.query_name, a.flag, a.reference_id, a.reference_start, a.mapping_quality = name, flag, tid, ex[0][0] - 1, 60
         cig, s_ = [], ""
         for i, (x, y) in enumerate(ex):
             if i:
@@ -694,6 +694,9 @@ def _mm_inputs(d):
         return a
     recs = [rec("plainA_%d" % k, A, 0) for k in range(3)] + [rec("plainB_%d" % k, B, 0) for k in range(3)]
     recs += [rec("mm_primA", A, 0), rec("mm_primA", B, 256), rec("mm_primB", B, 0), rec("mm_primB", A, 256)]
+    # an assigned primary alignment plus a secondary alignment that lands between the genes (intergenic / uninformative): the stray one loses
+    stray = [(base + 6000, base + 6200), (base + 7000, base + 7300)]
+    recs += [rec("mm_stray", A, 0), rec("mm_stray", stray, 256)]
     with pysam.AlignmentFile(os.path.join(d, "mm.bam"), "wb", template=inp) as out:
         for a in sorted(recs, key=lambda x: x.reference_start):
             out.write(a)
@@ -728,13 +731,13 @@ def _mm_pipeline_problems():
         finally:
             shutil.rmtree(d, ignore_errors=True)
     for mode, (rows, counts) in tables.items():
-        for read, winner, loser in (("mm_primA", "mmA.t1", "mmB.t1"), ("mm_primB", "mmB.t1", "mmA.t1")):
+        for read, winner, loser in (("mm_primA", "mmA.t1", "mmB.t1"), ("mm_primB", "mmB.t1", "mmA.t1"), ("mm_stray", "mmA.t1", "an intergenic position")):
             mine = [r for r in rows if r[0] == read]
             if [r[1] for r in mine] != [winner]:
                 problems.append("[%s] %s (primary on %s, secondary on %s) is reported as %s: the uniquely assigned primary alignment must win "
                                 "and the secondary one be suppressed" % (mode, read, winner, loser, [(r[1], r[2]) for r in mine]))
-        if abs(sum(counts.values()) - 8) > 1e-6 or abs(counts.get("mmA.t1", 0) - 4) > 1e-6:
-            problems.append("[%s] transcript counts %s: 8 reads, 4 per isoform expected (no read contributes more than 1)" % (mode, counts))
+        if abs(sum(counts.values()) - 9) > 1e-6 or abs(counts.get("mmA.t1", 0) - 5) > 1e-6:
+            problems.append("[%s] transcript counts %s: 9 reads expected, 5 for mmA.t1 and 4 for mmB.t1 (no read contributes more than 1)" % (mode, counts))
     if len(tables) == 2 and tables["default"] != tables["--high_memory"]:
         problems.append("default and --high_memory disagree: %s vs %s" % (tables["default"][1], tables["--high_memory"][1]))
     return problems
@@ -752,4 +755,4 @@ def c08_pipeline(tier, rng):
     p = _mm_pipeline_problems()
     viol = [{"obligation": "C08.pipeline_modes", "inputs": {"scenario": "primary+secondary on one chromosome"}, "observed": p[:4],
              "required": "primary wins, losers suppressed, modes agree", "replay_call": "contracts.c_multimap:replay_mm_pipeline"}] if p else []
-    return {"cases": 2, "bound": "2 pipeline runs, 8 reads", "violations": viol, "samples": [{"read": "mm_primA"}]}
+    return {"cases": 2, "bound": "2 pipeline runs, 9 reads", "violations": viol, "samples": [{"read": "mm_primA"}]}
